@@ -224,6 +224,8 @@ func ruleC06Ctor(c *Checker) {
 	const R = "C06.ctor"
 	c.rule(R, "Constructor discipline for every address literal: values stored into RemoteSource.subPath / RegistrySource.subPath are \"\", an existing sub-path, the ok-edge result of a sub-path sanitiser, path.Join of such, or a parameter sanitised at every call site; a non-zero LocalSource.relPath is computed in exactly one (reachable) function — the canonicaliser the parsers dispatch to — and everybody else obtains local sources from it; RemotePackage is constructed in one function.", 8)
 	checkAddrCtors(c, R)
+	// versions of final registry sources are stored verbatim
+	ruleC06Version(c, R)
 	// RemotePackage single constructor
 	p := c.P
 	stv := p.FieldVar(addrPkg, "RemotePackage", "sourceType")
@@ -623,6 +625,45 @@ func ruleC07Routes(c *Checker) {
 			}
 		}
 	}
+	// query syntax gate on every route: PrepareURL reads the query through URL.Query(), which
+	// silently drops malformed pairs, so a pair with a ';' would escape the per-type rules
+	for _, fn := range p.Funcs {
+		if len(storesToField(fn, stv)) == 0 {
+			continue
+		}
+		gate := func(f *ssa.Function) []Edge {
+			var out []Edge
+			for _, ci := range callsTo(f, func(o *types.Func) bool { return isFunc(o, "net/url", "ParseQuery") }) {
+				cl := ci.(*ssa.Call)
+				okE, errE := okEdgesOfCall(cl)
+				rej := len(errE) > 0
+				for _, e := range errE {
+					if r, _ := returnsNonNilErrorFrom(e.To()); !r {
+						rej = false
+					}
+				}
+				if rej {
+					out = append(out, okE...)
+				}
+			}
+			return out
+		}
+		for _, st := range storesToField(fn, stv) {
+			if guarded(st.Block(), gate(fn)) {
+				c.pass(R, p.FuncName(fn), "query syntax checked", p.Pos(st.Pos()), "the shared constructor rejects a query string url.ParseQuery refuses, on every route")
+				continue
+			}
+			all := len(p.callersOf(fn)) > 0
+			why := ""
+			for _, cs := range p.callersOf(fn) {
+				if !guarded(cs.Block(), gate(cs.Parent())) {
+					all = false
+					why = p.FuncName(cs.Parent())
+				}
+			}
+			c.check(all, R, p.FuncName(fn), "query syntax checked", p.Pos(st.Pos()), "every route passes url.ParseQuery's ok edge", "route through "+why+" builds a RemotePackage without url.ParseQuery having accepted the query string: PrepareURL reads the query with URL.Query(), which silently drops malformed pairs, so a forbidden argument in a pair containing ';' is never policy-checked and stays in the address")
+		}
+	}
 	c.check(n > 0, R, "-", "RemotePackage construction", "-", fmt.Sprintf("%d site(s)", n), "no RemotePackage construction site found")
 	// lower-casing on the parsing route
 	if prs := p.Fn(addrPkg, "ParseRemoteSource"); prs != nil {
@@ -1002,6 +1043,23 @@ func ruleC11JoinOrder(c *Checker) {
 		c.check(ok, R, name, "join operand order", p.Pos(ci.Pos()), "path.Join(real sub-path, caller's sub-path)", "the sub-paths are joined in the wrong order (or from the wrong addresses)")
 	}
 	c.check(n > 0, R, name, "join present", p.Pos(fn.Pos()), "both-sub-paths case joins them", "the case where both addresses carry a sub-path no longer joins them")
+	// the registry's address is returned unchanged only when the requesting source has no sub-path
+	emptyT, _ := condEdges(fn, func(v ssa.Value) bool {
+		bo, ok := v.(*ssa.BinOp)
+		if !ok || bo.Op != token.EQL {
+			return false
+		}
+		s2, ok := constString(bo.Y)
+		if !ok || s2 != "" {
+			return false
+		}
+		return p.backSlice(bo.X, 0)[recv] && !p.backSlice(bo.X, 0)[real]
+	})
+	for i, r := range returnsOf(fn) {
+		if canon(r.Results[0]) == ssa.Value(real) {
+			c.check(guarded(r.Block(), emptyT), R, name, fmt.Sprintf("return %d of the registry's address unchanged", i), p.Pos(r.Pos()), "only when the requesting source's sub-path is empty", "the registry's address can be returned without the requested sub-path although one was given (e.g. when it 'already ends with' it): the join no longer follows path algebra")
+		}
+	}
 	for _, st := range storesToField(fn, p.FieldVar(addrPkg, "RemoteSource", "pkg")) {
 		c.check(p.backSlice(st.Val, 0)[real] && !p.backSlice(st.Val, 0)[recv], R, name, "result package", p.Pos(st.Pos()), "package of the real address", "the result does not keep the package the registry named")
 	}
@@ -1013,5 +1071,47 @@ func ruleC11JoinOrder(c *Checker) {
 			}
 		}
 		c.check(deleg, R, p.FuncName(fin), "delegates to the unversioned join", p.Pos(fin.Pos()), "same join for final sources", "final registry sources join sub-paths differently from unversioned ones")
+	}
+}
+
+// ruleC06Version: the version put into a RegistrySourceFinal is a parameter,
+// an existing address's version, or the direct result of versions.ParseVersion.
+func ruleC06Version(c *Checker, R string) {
+	p := c.P
+	vv := p.FieldVar(addrPkg, "RegistrySourceFinal", "version")
+	if vv == nil {
+		c.anchorMissing(R, "RegistrySourceFinal.version")
+		return
+	}
+	okVal := func(v ssa.Value, use ssa.Instruction) (bool, string) {
+		for _, l := range p.origins(v, 0) {
+			switch {
+			case l.Kind == "param":
+			case l.Kind == "field" && l.Field == vv:
+			case l.Kind == "call" && l.Callee != nil && isFunc(l.Callee, "github.com/apparentlymart/go-versions/versions", "ParseVersion"):
+			case l.Kind == "zero":
+			default:
+				return false, leafDesc(p, l)
+			}
+		}
+		return true, ""
+	}
+	for _, fn := range p.Funcs {
+		if !p.InModule(fn) {
+			continue
+		}
+		for _, st := range storesToField(fn, vv) {
+			ok, why := okVal(st.Val, st)
+			c.check(ok, R, p.FuncName(fn), "store RegistrySourceFinal.version", p.Pos(st.Pos()), "the version is stored as given / as parsed", "the version stored in a final registry source is transformed ("+why+"): what is printed no longer parses back to the same value")
+		}
+		for _, ci := range callsIn(fn) {
+			g := ci.Common().StaticCallee()
+			if g == nil || g.Name() != "Versioned" || !p.InModule(g) {
+				continue
+			}
+			args := ci.Common().Args
+			ok, why := okVal(args[len(args)-1], ci)
+			c.check(ok, R, p.FuncName(fn), "argument of Versioned", p.Pos(ci.Pos()), "the version is handed on as given / as parsed", "the version handed to Versioned is transformed ("+why+"): a parsed address differs from the one that was printed (e.g. build metadata dropped)")
+		}
 	}
 }
